@@ -6,6 +6,7 @@ import itertools
 from ..core import AnalysisError, where, norm
 from ..liftforms import LifterModel
 from ..lifter import LiftError, LiftUnknown, Term, TId, TInt, TSlice, ModVal, InfoObj, show, walk_terms, FuncVal
+from ..lifter import get_size as get_size_
 from ..irsets import (eval_small, Refuse, msb_function, load_cc_ref, cc_predicate, load_effects_ref, rw_sets, FLAGS)
 from ..shapes import u
 from ..srcmodel import walk_no_nested
@@ -248,6 +249,9 @@ def run(ctx, report):
                             good = False
                             why = 'operand argument %s is rebound before the call (%s): carry/overflow are then computed from a derived value, not from the instruction operand' % (
                                 arg.id, norm(defs_[0])[:60])
+                        elif arg.id not in params and defs_ and all(u(d_) == 'eax' or (isinstance(d_, ast.Call) and u(d_.func) == 'ExprSlice' and d_.args and u(d_.args[0]) == 'eax'
+                                                                                   and len(d_.args) == 3 and isinstance(d_.args[1], ast.Constant) and d_.args[1].value == 0) for d_ in defs_):
+                            pass            # the implicit accumulator operand (eax, or its low part of the operand size): cmpxchg
                         elif arg.id not in params and not (len(defs_) == 1 and isinstance(defs_[0], ast.Call) and u(defs_[0].func) in ('ExprInt_from', 'ExprInt32', 'ExprInt16', 'ExprInt8')):
                             good = False
                             why = 'operand argument %s is neither an instruction operand nor a single constant' % arg.id
@@ -444,6 +448,86 @@ def run(ctx, report):
                                  ("imul eax, ecx with 0x10000 * 0x10000: CF = 0" if problem[0] == 'truncated-product' else 'imul ecx with eax = -1, ecx = 2: CF = 1'))
                 else:
                     R7.ok(iid, sample='%s %s: %s from %s' % (inst.name, inst.form, flag, show(cond)[:80]))
+    # ------------------------------------------------------------------ D8 decimal adjustments: exhaustive over al x af x cf
+    R8 = report.rule('C04.D8', 'aaa/aas/daa/das: the lifted assignments, evaluated on every al x AF x CF (and boundary ah), give the SDM results', floor=4)
+
+    def bcd_ref(name, ax, AF, CF):
+        al, ah = ax & 0xff, ax >> 8
+        par = lambda v: 1 - bin(v & 0xff).count('1') % 2
+        if name in ('aaa', 'aas'):
+            c = (al & 0xf) > 9 or bool(AF)
+            ax2 = ((ax + 0x106) if name == 'aaa' else (ax - 0x106)) & 0xffff if c else ax
+            return {'ax': ax2 & 0xff0f, 'af': int(c), 'cf': int(c)}
+        old_al, old_cf, cf_ = al, CF, 0
+        if (al & 0xf) > 9 or AF:
+            if name == 'daa':
+                cf_ = int(bool(old_cf) or al + 6 > 0xff)
+                al = (al + 6) & 0xff
+            else:
+                cf_ = int(bool(old_cf) or al < 6)
+                al = (al - 6) & 0xff
+            af_ = 1
+        else:
+            af_ = 0
+        if old_al > 0x99 or old_cf:
+            al = (al + 0x60) & 0xff if name == 'daa' else (al - 0x60) & 0xff
+            cf_ = 1
+        elif name == 'daa':
+            cf_ = 0
+        return {'ax': (ah << 8) | al, 'af': af_, 'cf': cf_, 'zf': int(al == 0), 'nf': al >> 7, 'pf': par(al)}
+    for inst in L.lift_all():
+        if inst.func is None or inst.unknown or inst.name not in ('aaa', 'aas', 'daa', 'das') or inst.opmode != 'u32':
+            continue
+        for dec, tmpl in inst.results:
+            if isinstance(tmpl, LiftError) or not isinstance(tmpl, list):
+                continue
+            bad_vec, n_vec, refused = None, 0, None
+            for ah in (0x00, 0x01, 0x09, 0x7f, 0xff):
+                for al in range(256):
+                    for AF in (0, 1):
+                        for CF in (0, 1):
+                            val = {'eax': 0x55550000 | (ah << 8) | al, 'af': AF, 'cf': CF, 'zf': 0, 'nf': 0, 'pf': 0, 'of': 0}
+                            got = dict(val)
+                            try:
+                                for a in tmpl:
+                                    if a.kind != 'Aff':
+                                        continue
+                                    v, w = eval_small(a.src, val)
+                                    d = a.dst
+                                    if d.kind == 'Id':
+                                        got[d.name] = v & ((1 << get_size_(d)) - 1)
+                                    elif d.kind == 'Slice' and d.arg.kind == 'Id':
+                                        msk = ((1 << (d.stop - d.start)) - 1) << d.start
+                                        got[d.arg.name] = (got[d.arg.name] & ~msk) | ((v << d.start) & msk)
+                                    else:
+                                        raise Refuse('destination %s' % show(d))
+                            except Refuse as e:
+                                refused = str(e)
+                                break
+                            n_vec += 1
+                            want = bcd_ref(inst.name, (ah << 8) | al, AF, CF)
+                            res = {'ax': got['eax'] & 0xffff}
+                            for f_ in ('af', 'cf', 'zf', 'nf', 'pf'):
+                                if f_ in want:
+                                    res[f_] = got[f_]
+                            if (res != want or got['eax'] >> 16 != 0x5555) and bad_vec is None:
+                                bad_vec = (ah, al, AF, CF, res, want)
+                        if refused:
+                            break
+                    if refused:
+                        break
+                if refused:
+                    break
+            iid = 'bcd:%s' % inst.name
+            if refused:
+                R8.violation(iid, 'bcd:%s:not-evaluable' % inst.name, '%s: the lifted assignments are outside the evaluable subset (%s): the decimal adjustment cannot be decided' % (inst.name, refused),
+                             where(sem, inst.func.node))
+            elif bad_vec:
+                ah, al, AF, CF, res, want = bad_vec
+                R8.violation(iid, 'bcd:%s:value' % inst.name, '%s with ax = %#06x, AF = %d, CF = %d gives %s; IA-32: %s' % (inst.name, (ah << 8) | al, AF, CF, res, want), where(sem, inst.func.node),
+                             witness='%s on ax = %#06x' % (inst.name, (ah << 8) | al))
+            else:
+                R8.ok(iid, sample='%s: %d vectors (al x AF x CF x 5 values of ah) agree with the SDM pseudo-code' % (inst.name, n_vec))
     report.analysed['effects_ref_mnemonics'] = len(eff)
 
     # ------------------------------------------------------------------ D4
@@ -501,6 +585,9 @@ def run(ctx, report):
 
 
 MUTANTS = [
+    ('das-no-borrow', 'miasmx/arch/ia32_sem.py', "        e.append(ExprAff(cf, ExprOp('|', cond2, ExprOp('&', cond1, lt6))))", "        e.append(ExprAff(cf, cond2))", 'C04.D8'),
+    ('aaa-adds-6', 'miasmx/arch/ia32_sem.py', "ExprOp(sign, r_ax, ExprInt16(0x106))", "ExprOp(sign, r_ax, ExprInt16(0x6))", 'C04.D8'),
+    ('daa-99', 'miasmx/arch/ia32_sem.py', "                               ExprOp('&', hi_is_9, nibble_gt9(r_al, 0))),\n                   cf)", "                               hi_is_9),\n                   cf)", 'C04.D8'),
     ('mul8-flags-old-ah', 'miasmx/arch/ia32_sem.py', "        e.append(ExprAff(of, ExprCond(c[8:16],\n", "        e.append(ExprAff(of, ExprCond(eax[8:16],\n", 'C04.D7'),
     ('imul-flags-high-only', 'miasmx/arch/ia32_sem.py', "    return ExprOp('-', c_hi, ExprCond(get_op_msb(c_lo),\n                                      ExprInt_from(c_lo, -1),\n                                      ExprInt_from(c_lo, 0)))", "    return c_hi", 'C04.D7'),
     ('setl-nf', 'miasmx/arch/ia32_sem.py', "def setl(info, a):\n    e = []\n    e.append(ExprAff(a, ExprCond(nf-of, ExprInt_from(a, 1), ExprInt_from(a, 0))))",
